@@ -460,4 +460,58 @@ def classSrcOk (X : Ora) (c : ClassSrc) : Bool :=
   identOk X c.name.toList && descOk c.desc && classSchemaOk X c.schema
 
 
+/-! ### bracket nesting, read off the expression trees -/
+
+mutual
+/-- bracket nesting of a printed expression -/
+def edepth : PyExpr → Nat
+  | .call _ kws => 1 + kwsDepth kws
+  | .list xs => 1 + listDepth xs
+  | .dict kvs => 1 + kvsDepth kvs
+  | .lam b => edepth b
+  | .name _ => 0
+  | .const _ => 0
+  | .num _ => 0
+  | .negNum _ => 0
+  | .strLit _ => 0
+  | .bad => 0
+termination_by structural e => e
+def listDepth : List PyExpr → Nat
+  | [] => 0
+  | x :: xs => max (edepth x) (listDepth xs)
+termination_by structural xs => xs
+def kwsDepth : List (List Char × PyExpr) → Nat
+  | [] => 0
+  | (_, v) :: r => max (edepth v) (kwsDepth r)
+termination_by structural kws => kws
+def kvsDepth : List (PyExpr × PyExpr) → Nat
+  | [] => 0
+  | (k, v) :: r => max (edepth k) (max (edepth v) (kvsDepth r))
+termination_by structural kvs => kvs
+end
+
+
+def itemDepth : Item → Nat
+  | .ann _ e => edepth e
+  | .assign _ e => edepth e
+  | _ => 0
+
+def itemsDepth : List Item → Nat
+  | [] => 0
+  | it :: r => max (itemDepth it) (itemsDepth r)
+
+
+/-- bracket nesting of a class statement: the header's parenthesis, then the body -/
+def classDepth (O : EOra) (c : ClassSrc) : Nat := max 1 (itemsDepth (classItems O c.desc c.schema))
+
+def modDepth (O : EOra) : List ClassSrc → Nat
+  | [] => 0
+  | c :: r => max (classDepth O c) (modDepth O r)
+
+
+/-- the bracket nesting of the emitted module, read off the expression trees: within CPython's limit -/
+def depthOk (O : EOra) (defs : List ClassSrc) (main : ClassSrc) : Bool :=
+  decide (modDepth O (defs ++ [main]) ≤ maxLevel)
+
+
 end Typedpy.Emit
